@@ -205,6 +205,19 @@ def pairs():
     out.append(('nest/set-of-sets-sibling', [('SetExtension', [('SetExtension', [a, c]), ('SetExtension', [b])]), ('SetExtension', [('SetExtension', [c, a]), ('SetExtension', [b])])]))
     out.append(('nest/conj-of-conj-sibling', [('Disjunction', [('Conjunction', [a, c]), ('Conjunction', [b, ('Word', 'm2')])]), ('Disjunction', [('Conjunction', [b, ('Word', 'm2')]), ('Conjunction', [c, a])])]))
     out.append(('image/nested-sets', [('ImageExtension', 1, [a, ('Disjunction', [('Conjunction', [a, c]), ('Conjunction', [b])])]), ('ImageExtension', 1, [a, ('Disjunction', [('Conjunction', [b]), ('Conjunction', [c, a])])])]))
+    # equal elements of DIFFERENT shapes inside ordered containers (a shortcut that compares a cheap 'shape' of the elements first
+    # breaks exactly these): symmetric statements with operands of different kinds swapped, sets of mixed kinds in another order
+    mixed_sym = [('Similarity', a, ('SetExtension', [b])), ('Similarity', ('SetExtension', [b]), a)]
+    mixed_eqv = [('Equivalence', ('Product', [a]), b), ('Equivalence', b, ('Product', [a]))]
+    mixed_set = [('SetExtension', [a, ('Product', [b]), ('Inheritance', c, a)]), ('SetExtension', [('Inheritance', c, a), a, ('Product', [b])])]
+    for nm_, (p_, q_) in (('symm-mixed', mixed_sym), ('eqv-mixed', mixed_eqv), ('set-mixed', mixed_set)):
+        out.append(('ordered/prod/' + nm_, [('Product', [c, p_]), ('Product', [c, q_])]))
+        out.append(('ordered/seq/' + nm_, [('ConjunctionSequential', [p_, c]), ('ConjunctionSequential', [q_, c])]))
+        out.append(('ordered/image/' + nm_, [('ImageExtension', 1, [c, p_]), ('ImageExtension', 1, [c, q_])]))
+        out.append(('ordered/imageI/' + nm_, [('ImageIntension', 0, [p_, c]), ('ImageIntension', 0, [q_, c])]))
+        out.append(('ordered/stmt/' + nm_, [('Inheritance', p_, c), ('Inheritance', q_, c)]))
+        out.append(('ordered/diff/' + nm_, [('DifferenceExtension', c, p_), ('DifferenceExtension', c, q_)]))
+        out.append(('ordered/neg/' + nm_, [('Negation', p_), ('Negation', q_)]))
     triples = [('trans/sets', [('SetExtension', [a, b]), ('SetExtension', [b, c]), ('SetExtension', [c, a])]),
                ('trans/symm', [('Similarity', a, b), ('Similarity', b, c), ('Similarity', c, a)]),
                ('trans/symm2', [('Equivalence', a, b), ('Equivalence', b, a), ('Equivalence', a, c)]),
